@@ -14,7 +14,14 @@ Validity constraints covered (XML 1.0 5th ed.):
   Attribute Value Type (declared) · ID (Name, unique) · One ID per Element Type · ID Attribute Default ·
   IDREF/IDREFS (Names, each matches an ID) · Name Token(s) · Enumeration · No Duplicate Tokens ·
   Required Attribute · Attribute Default Value Syntactically Correct · Fixed Attribute Default.
-Not modelled here: ENTITY/ENTITIES/NOTATION types, standalone VCs, external subset / PE nesting VCs.
+  Entity Declared (as VC, and as the WFC it becomes for standalone="yes" / no external subset) ·
+  Standalone Document Declaration (§2.9): with standalone="yes" no EXTERNALLY declared attribute default
+  (plain or #FIXED) may be needed, no externally declared entity referenced, no externally declared attribute
+  of tokenized type (ID…NMTOKENS, not enumerations) may have a value that normalisation changes, and no externally declared element-content
+  element may directly contain white space.
+Declarations carry an `ext` flag (declared in the external subset).  The internal subset is read before the
+external one, so internal declarations are binding over external ones (§2.8).
+Not modelled here: ENTITY/ENTITIES/NOTATION types, parameter entities, PE nesting VCs.
 
 Definitions only; no Mathlib.
 -/
@@ -41,39 +48,65 @@ structure AttDef where
   name : Nat
   type : AttType
   dflt : Dflt
+  ext : Bool := false          -- declared in the external subset
   deriving Repr, DecidableEq, Inhabited
 
+/-- `<!ELEMENT name content>` (in the subset given by `ext`) together with attribute definitions for
+    the element type (each in the subset given by its own `ext`) -/
 structure ElemDecl where
   name : Name
   content : Spec
   atts : List AttDef
+  ext : Bool := false
   deriving Repr, Inhabited
 
+/-- internal general entity `<!ENTITY name "t">` (non-empty character data) -/
+structure EntDecl where
+  name : Nat
+  ext : Bool := false
+  deriving Repr, DecidableEq, Inhabited
+
+/-- `padded`: the value is written with leading/trailing/doubled spaces, i.e. normalisation as a tokenized
+    type gives a different value than CDATA normalisation -/
 structure Attr where
   name : Nat
   value : List Tok
+  padded : Bool := false
   deriving Repr, DecidableEq, Inhabited
 
-/-- element: type, "has non-white-space character data", specified attributes, child elements -/
+/-- element content besides the child elements: non-white-space character data, white space, entity references -/
+structure Extra where
+  text : Bool := false
+  ws : Bool := false
+  refs : List Nat := []
+  deriving Repr, DecidableEq, Inhabited
+
 inductive Elem where
-  | mk (name : Name) (text : Bool) (attrs : List Attr) (children : List Elem)
+  | mk (name : Name) (x : Extra) (attrs : List Attr) (children : List Elem)
   deriving Repr, Inhabited
 
 structure Doc where
   doctype : Name
   decls : List ElemDecl
   root : Elem
+  standalone : Bool := false     -- standalone="yes"
+  hasExt : Bool := false         -- the DOCTYPE has an external subset
+  ents : List EntDecl := []
   deriving Repr, Inhabited
 
 def Elem.name : Elem → Name | .mk n _ _ _ => n
-def Elem.text : Elem → Bool | .mk _ t _ _ => t
+def Elem.x : Elem → Extra | .mk _ x _ _ => x
+def Elem.text (e : Elem) : Bool := e.x.text
 def Elem.attrs : Elem → List Attr | .mk _ _ a _ => a
 def Elem.children : Elem → List Elem | .mk _ _ _ c => c
 
 /-! ### the DTD -/
 
-/-- first declaration of an element type is binding -/
-def findDecl (decls : List ElemDecl) (n : Name) : Option ElemDecl := decls.find? (·.name == n)
+/-- first declaration of an element type is binding; the internal subset is read first -/
+def findDecl (decls : List ElemDecl) (n : Name) : Option ElemDecl :=
+  match decls.find? (fun d => d.name == n && !d.ext) with
+  | some d => some d
+  | none => decls.find? (·.name == n)
 
 /-- keep the first definition of each attribute name -/
 def dedupAtts : List AttDef → List AttDef → List AttDef
@@ -82,7 +115,14 @@ def dedupAtts : List AttDef → List AttDef → List AttDef
 
 /-- all ATTLIST definitions for an element type, first definition of a name binding (§3.3) -/
 def effAtts (decls : List ElemDecl) (n : Name) : List AttDef :=
-  dedupAtts ((decls.filter (·.name == n)).flatMap (·.atts)) []
+  let all := (decls.filter (·.name == n)).flatMap (·.atts)
+  dedupAtts (all.filter (!·.ext) ++ all.filter (·.ext)) []
+
+/-- binding declaration of a general entity -/
+def findEnt (ents : List EntDecl) (n : Nat) : Option EntDecl :=
+  match ents.find? (fun d => d.name == n && !d.ext) with
+  | some d => some d
+  | none => ents.find? (·.name == n)
 
 def nodup : List Nat → Bool
   | [] => true
@@ -163,6 +203,20 @@ def textAllowed : Spec → Bool
   | .any => true
   | _ => false
 
+def isChildren : Spec → Bool
+  | .children _ => true
+  | _ => false
+
+def isCdata : AttType → Bool
+  | .cdata => true
+  | _ => false
+
+/-- the *TokenizedType* production of §3.3.1 (enumerated types are a separate production; §2.9 names
+    "attributes with tokenized types" only) -/
+def isTokenized : AttType → Bool
+  | .id | .idref | .idrefs | .nmtoken | .nmtokens => true
+  | _ => false
+
 /-- violated constraints local to one element (not counting ID/IDREF cross references) -/
 def elemLocalViolations (decls : List ElemDecl) (e : Elem) : List String :=
   let atts := effAtts decls e.name
@@ -170,7 +224,8 @@ def elemLocalViolations (decls : List ElemDecl) (e : Elem) : List String :=
    | none => ["element-not-declared"]
    | some d =>
      (if derivMatch d.content (e.children.map (·.name)) then [] else ["element-content"]) ++
-     (if e.text && !textAllowed d.content then ["character-data-not-allowed"] else [])) ++
+     (if (e.x.text || !e.x.refs.isEmpty) && !textAllowed d.content then ["character-data-not-allowed"] else []) ++
+     (if e.x.ws && d.content == .empty then ["empty-element-has-content"] else [])) ++
   e.attrs.flatMap (fun a =>
     match atts.find? (·.name == a.name) with
     | none => ["attribute-not-declared"]
@@ -179,17 +234,44 @@ def elemLocalViolations (decls : List ElemDecl) (e : Elem) : List String :=
        | none => []
        | some w => ["attribute-value-type:" ++ w]) ++
       (match d.dflt with
-       | .fixed v => if a.value == v then [] else ["fixed-attribute-default"]
+       | .fixed v => if a.value == v && !(a.padded && isCdata d.type) then [] else ["fixed-attribute-default"]
        | _ => [])) ++
   atts.flatMap (fun d =>
     match d.dflt with
     | .required => if e.attrs.any (·.name == d.name) then [] else ["required-attribute"]
     | _ => [])
 
+/-- VC Standalone Document Declaration (§2.9), the three clauses that are validity constraints only -/
+def standaloneViolations (decls : List ElemDecl) (e : Elem) : List String :=
+  let atts := effAtts decls e.name
+  atts.flatMap (fun d =>
+    if d.ext && (dfltValue d.dflt).isSome && !e.attrs.any (·.name == d.name)
+    then ["standalone:externally-declared-default-needed"] else []) ++
+  e.attrs.flatMap (fun a =>
+    match atts.find? (·.name == a.name) with
+    | some d => if d.ext && isTokenized d.type && a.padded then ["standalone:externally-declared-attribute-normalised"] else []
+    | none => []) ++
+  (match findDecl decls e.name with
+   | some d => if d.ext && isChildren d.content && e.x.ws
+               then ["standalone:white-space-in-externally-declared-element-content"] else []
+   | none => [])
+
+/-- entity references of one element: `(wf, vc)` violation classes.  An undeclared entity is a
+    well-formedness error when the document is standalone or has no external subset (no parameter entities
+    are used), a validity error otherwise (§4.1); in a standalone document a reference to an entity whose
+    binding declaration is external is a well-formedness error (WFC Entity Declared). -/
+def entityViolations (d : Doc) (e : Elem) : List String × List String :=
+  e.x.refs.foldl (fun (acc : List String × List String) r =>
+    match findEnt d.ents r with
+    | none => if d.standalone || !d.hasExt then (acc.1 ++ ["entity-declared"], acc.2)
+              else (acc.1, acc.2 ++ ["entity-declared"])
+    | some ed => if d.standalone && ed.ext then (acc.1 ++ ["entity-declared-externally-in-standalone-document"], acc.2)
+                 else acc) ([], [])
+
 mutual
   /-- all elements in document (pre-)order -/
   def allElems : Elem → List Elem
-    | .mk n t a cs => .mk n t a cs :: allElemsList cs
+    | .mk n x a cs => .mk n x a cs :: allElemsList cs
   def allElemsList : List Elem → List Elem
     | [] => []
     | c :: cs => allElems c ++ allElemsList cs
@@ -208,6 +290,10 @@ def isRefType : AttType → Bool
   | .idrefs => true
   | _ => false
 
+/-- violated well-formedness constraints (only WFC Entity Declared can be violated by an abstract document) -/
+def wfViolations (d : Doc) : List String :=
+  (allElems d.root).flatMap (fun e => (entityViolations d e).1)
+
 def violations (d : Doc) : List String :=
   let es := allElems d.root
   let ids := tokensOfType d.decls es isIdType
@@ -216,13 +302,26 @@ def violations (d : Doc) : List String :=
   (if d.root.name == d.doctype then [] else ["root-element-type"]) ++
   es.flatMap (elemLocalViolations d.decls) ++
   (if nodup ids then [] else ["id-unique"]) ++
-  (if refs.all (fun r => ids.contains r) then [] else ["idref-resolves"])
+  (if refs.all (fun r => ids.contains r) then [] else ["idref-resolves"]) ++
+  es.flatMap (fun e => (entityViolations d e).2) ++
+  (if d.standalone then es.flatMap (standaloneViolations d.decls) else [])
 
-/-- the document satisfies all modelled validity constraints -/
-def validDoc (d : Doc) : Bool := (violations d).isEmpty
+/-- the document is well-formed and satisfies all modelled validity constraints -/
+def validDoc (d : Doc) : Bool := (wfViolations d).isEmpty && (violations d).isEmpty
 
-/-- what any processor that read the declarations must report as attributes, per element in document order -/
-def reportedAttrs (d : Doc) : List (Name × List (Nat × List Tok × Bool)) :=
-  (allElems d.root).map (fun e => (e.name, elemAttrs d.decls e))
+/-- what any processor that read the declarations must report per element in document order: attributes
+    (value, supplied-by-default flag, "written padded and not normalised as a tokenized type" flag) and the
+    number of character-data items (own text and declared entity references, each expanding to one character) -/
+def reportedAttrs (d : Doc) : List (Name × List (Nat × List Tok × Bool × Bool) × Nat) :=
+  (allElems d.root).map (fun e =>
+    let atts := effAtts d.decls e.name
+    (e.name,
+     (elemAttrs d.decls e).map (fun (n, v, dfl) =>
+        let rawPadded := !dfl && (e.attrs.any (fun a => a.name == n && a.padded)) &&
+          (match atts.find? (·.name == n) with
+           | some ad => isCdata ad.type
+           | none => true)
+        (n, v, dfl, rawPadded)),
+     (if e.x.text then 1 else 0) + (e.x.refs.filter (fun r => (findEnt d.ents r).isSome)).length))
 
 end XV.Spec.DtdValid
